@@ -1118,6 +1118,9 @@ class Interp:
                 return C(abs(vals[0]))
             if fname != "builtins.abs" and len(vals) >= 2:
                 return C(max(vals) if fname == "builtins.max" else min(vals))
+        if fname == "numpy.expand_dims" and args and (dict(kwargs).get("axis") == C(0) or (len(args) == 2 and args[1] == C(0))) and len(kwargs) <= 1:
+            # np.expand_dims(a, axis=0) is a[np.newaxis, :] for a vector (the one spelling the rules know)
+            return ("sub", args[0], ("tuple", (("mod", "numpy.newaxis"), ("slice", NONE, NONE, NONE))))
         return ("call", fname, args, kwargs)
 
 
